@@ -241,7 +241,7 @@ func isCopyAccumulate(in ssa.Instruction) bool { return false }
 
 // MakeSlice implements P1 for make.
 func (c *Checker) MakeSlice(st *pathint.State, in *ssa.MakeSlice, n lin.Form) {
-	c.require(st, "P1", in, "make", n, "length passed to make is never negative")
+	c.require(st, "P1", in, "make", n, "length passed to make is never negative and the capacity is never below the length")
 }
 
 // BackEdge implements P4: every iteration of a cursor loop advances the cursor.
